@@ -75,6 +75,7 @@ type Contract struct {
 	Fields   map[string][]string // classification of the receiver struct's fields by kind (reset contracts)
 	Records  []Clause            // ghost instrumentation: assumed after calls, not checked against the body
 	Stable   []string            // package-level variables assumed not to be modified by uncontracted calls
+	Wraps    bool                // signed 64-bit +,- wrap around exactly (integer mode)
 	Dead     map[string]bool     // returns claimed unreachable ("ret6")
 	TypeInv  []TypeInvClause     // objinv T [label] expr-over-self: assumed wherever a field of a *T that the clause mentions is addressed
 	ObjInv   []Clause            // object invariants: assumed at entry and again after every call (all writers of the fields re-establish them: onstore obligations + the onstore-coverage obligation)
@@ -279,6 +280,9 @@ func (cs *ContractSet) parseContractFile(path, pkgPath string, trusted bool) err
 				}
 			case "replay":
 				cur.Replay = rest
+			case "wraps":
+				// integer mode, but signed 64-bit + and - are modelled exactly (two's complement wrap-around)
+				cur.Wraps = true
 			case "nosafety":
 				cur.NoSafety = true
 			case "objinv":
